@@ -39,10 +39,11 @@ type upload struct {
 }
 
 type s3rt struct {
-	mu       sync.Mutex
-	uploads  []upload
-	start    time.Time
-	outcomes []string
+	mu        sync.Mutex
+	uploads   []upload
+	start     time.Time
+	outcomes  []string
+	slowFirst time.Duration
 }
 
 func (rt *s3rt) RoundTrip(req *http.Request) (*http.Response, error) {
@@ -57,8 +58,18 @@ func (rt *s3rt) RoundTrip(req *http.Request) (*http.Response, error) {
 		out = rt.outcomes[sched.Choose("s3", len(rt.outcomes))]
 	}
 	rt.mu.Lock()
-	rt.uploads = append(rt.uploads, upload{at: time.Since(rt.start), body: body, ok: out == "ok", key: req.URL.Path})
+	nth := len(rt.uploads)
+	rt.uploads = append(rt.uploads, upload{at: time.Since(rt.start), body: body, ok: out != "fail", key: req.URL.Path})
 	rt.mu.Unlock()
+	if out == "slow" || (rt.slowFirst > 0 && nth == 0) {
+		// a slow bucket: the request stays in flight for a while (virtual time)
+		d := rt.slowFirst
+		if d == 0 {
+			d = 90 * time.Second
+		}
+		time.Sleep(d)
+		sched.Seam("s3.slow-answer")
+	}
 	if out != "ok" {
 		return &http.Response{StatusCode: 500, Status: "500 Internal Server Error", Header: http.Header{"Content-Type": {"application/xml"}}, Body: io.NopCloser(strings.NewReader(`<?xml version="1.0" encoding="UTF-8"?><Error><Code>InternalError</Code><Message>scripted failure</Message></Error>`)), Request: req}, nil
 	}
@@ -66,11 +77,12 @@ func (rt *s3rt) RoundTrip(req *http.Request) (*http.Response, error) {
 }
 
 type scen struct {
-	name     string
-	writer   []string // put | sleep:<d>
-	outcomes []string
-	cancelAt bool // a cancel event that may fire at any moment
-	horizon  time.Duration
+	name      string
+	writer    []string // put | sleep:<d>
+	outcomes  []string
+	cancelAt  bool          // a cancel event that may fire at any moment
+	slowFirst time.Duration // the first upload stays in flight this long
+	horizon   time.Duration
 }
 
 func (sc scen) harness() func() *sched.Harness {
@@ -101,7 +113,7 @@ func (sc scen) harness() func() *sched.Harness {
 				d.Put(hx.Super(), "a", []byte("initial"))
 				b, _ := os.ReadFile(path)
 				versions = append(versions, b)
-				rt = &s3rt{start: start, outcomes: sc.outcomes}
+				rt = &s3rt{start: start, outcomes: sc.outcomes, slowFirst: sc.slowFirst}
 				client := s3.New(s3.Options{
 					Region:       "us-east-1",
 					Credentials:  credentials.NewStaticCredentialsProvider("AKIDEXAMPLE", "secret", ""),
@@ -261,6 +273,7 @@ func TestCheck(t *testing.T) {
 		{name: "writes at 30s and 100s, uploads may fail", writer: []string{"sleep:30s", "put", "sleep:70s", "put"}, outcomes: []string{"ok", "fail"}, horizon: 460 * time.Second},
 		{name: "cancellation at any moment, one write", writer: []string{"sleep:30s", "put"}, cancelAt: true, horizon: 300 * time.Second},
 		{name: "cancellation at any moment while idle", cancelAt: true, horizon: 200 * time.Second},
+		{name: "first upload in flight for 90s, writes at 30s and 100s", writer: []string{"sleep:30s", "put", "sleep:70s", "put"}, slowFirst: 90 * time.Second, horizon: 520 * time.Second},
 	}
 	var list []hx.Scenario
 	for _, sc := range scs {
